@@ -202,6 +202,26 @@ def parse_two(a, b, chainflag):
     return size
 
 
+# io.dump_apbs parses the PQR TWICE into the same Psize (parse_input, then run_psize -> parse_input again): the box must
+# not care - merging the same spheres again changes no bound (counts and the charge sum double, neither reaches the grid)
+@harness("C17",
+         params={"a": PATOM("a"), "b": PATOM("b", type=Const("HETATM")), "chainflag": Const(True)},
+         requires=[FITS.format(a="a"), FITS.format(a="b")],
+         ensures=[
+             "result.minlen[0] == min(lo(a, a.x), lo(b, b.x)) and result.maxlen[0] == max(hi(a, a.x), hi(b, b.x))",
+             "result.minlen[1] == min(lo(a, a.y), lo(b, b.y)) and result.maxlen[1] == max(hi(a, a.y), hi(b, b.y))",
+             "result.minlen[2] == min(lo(a, a.z), lo(b, b.z)) and result.maxlen[2] == max(hi(a, a.z), hi(b, b.z))",
+         ],
+         name="parse_lines.parsed_twice")
+def parse_twice(a, b, chainflag):
+    size = Psize()
+    lines = ["REMARK   1 PQR file generated by PDB2PQR\n", a.get_pqr_string(chainflag=chainflag) + "\n",
+             b.get_pqr_string(chainflag=chainflag) + "\n", "TER\n", "END"]
+    size.parse_lines(lines)
+    size.parse_lines(lines)
+    return size
+
+
 # ---------------------------------------------------------------- parse_lines, the induction step: ANY number of atoms
 # From an arbitrary accumulated state (bounds unset or any reals, any counts) one more atom line turns every bound into
 # min / max of the old bound and the atom's sphere, adds its charge and counts it; a header / comment / bookkeeping line
